@@ -466,7 +466,7 @@ func checkC16(c C16Case, r *Rec) *Violation {
 				return
 			}
 			posB := matchOccurrences(a.Kids, b.Kids) // identical operands: k-th occurrence with k-th occurrence
-			for i, p := range a.Kids { // p after q under M ...
+			for i, p := range a.Kids {               // p after q under M ...
 				if !p.Mentions(c.X) {
 					continue
 				}
